@@ -7,13 +7,14 @@ line on stdin, one answer per line on stdout.  Client: harness/gencorr.py.
         the first `want` results of successive next() calls (each with `fuel`), the values
         yielded and the requests made to the random source, in order
   eval <pred> <val>                       ->  ok T | ok F | raised <Err>
-  nextup <k> / nextdown <k>               ->  <k'>         math.nextafter on float units
+  nextup <f> / nextdown <f>               ->  <f'>         math.nextafter(x, ±inf) on float values ((f k) | (F n))
+  floats <f|N> <f|N>                      ->  (<lower> <upper>)   the resolved bounds of random_floats(lower, upper)
   key <val>                               ->  n1 n2 …      GVal.key
   class <pred>                            ->  okT okF boundedT boundedF yieldsT total falseSupported   (0|1 each; Model/GenClass.lean)
 
 Wire format (part of the harness, not a model of the library):
   values  N | (b 0|1) | (i n) | (f k) | (s c*) | (l v*) | (t v*) | (S v*) | (d (k v)*)
-          | (D us) | (U n) | (C re im)          (f k = the double k·2^-1074)
+          | (D us) | (U n) | (C re im) | (F 0|1)     (f k = the double k·2^-1074; (F 0) = +inf, (F 1) = -inf)
   preds   tt ff none notnone truthy falsy empty | (eq v) (ne v) (ge v) (gt v) (le v) (lt v)
           (in v*) (notin v*) (subset v*) (rsubset v*) (inst klass*) (haskey v)
           (and <unsatT 0|1> <genF 0|1> p q) (or p q) (all p) (any p) (setof p)
@@ -36,6 +37,7 @@ partial def toVal : Sexp → Option GVal
   | .list [.atom "b", .atom v] => some (.bool (v == "1"))
   | .list [.atom "i", v] => do some (.int (← Wire.intAtom? v))
   | .list [.atom "f", v] => do some (.flt (← Wire.intAtom? v))
+  | .list [.atom "F", .atom v] => some (.inf (v == "1"))
   | .list (.atom "s" :: cs) => do some (.str (← Wire.nats? cs))
   | .list (.atom "l" :: xs) => do some (.list (← xs.mapM toVal))
   | .list (.atom "t" :: xs) => do some (.tuple (← xs.mapM toVal))
@@ -55,6 +57,7 @@ partial def ofVal : GVal → Sexp
   | .bool b => .list [a "b", a (if b then "1" else "0")]
   | .int n => .list [a "i", a (toString n)]
   | .flt t => .list [a "f", a (toString t)]
+  | .inf n => .list [a "F", a (if n then "1" else "0")]
   | .str cs => .list (a "s" :: cs.map (fun c => a (toString c)))
   | .list xs => .list (a "l" :: xs.map ofVal)
   | .tuple xs => .list (a "t" :: xs.map ofVal)
@@ -63,6 +66,18 @@ partial def ofVal : GVal → Sexp
   | .dt us => .list [a "D", a (toString us)]
   | .uuid n => .list [a "U", a (toString n)]
   | .cplx x y => .list [a "C", a (toString x), a (toString y)]
+
+def toXF : GVal → Option XF
+  | .flt k => some (.fin k)
+  | .inf n => some (.inf n)
+  | _ => none
+
+/-- `N` = the argument is not given. -/
+def optXF (s : Sexp) : Option (Option XF) :=
+  match toVal s with
+  | some .none => some none
+  | some v => (toXF v).map some
+  | none => none
 
 def toKlass : Sexp → Option PyVal.Klass
   | .atom "bool" => some .bool | .atom "int" => some .int | .atom "float" => some .float
@@ -166,14 +181,22 @@ def handle (line : String) : String :=
       match toPred p, toVal v with
       | some p, some v => showOutcome (evalG p v)
       | _, _ => "ERR args"
-    | "nextup", [k] =>
-      match Wire.intAtom? k with
-      | some k => toString (nextUp k)
+    | "nextup", [v] =>
+      match (toVal v).bind toXF with
+      | some x => (ofVal (nextUpX x).val).toString
       | none => "ERR args"
-    | "nextdown", [k] =>
-      match Wire.intAtom? k with
-      | some k => toString (nextDown k)
+    | "nextdown", [v] =>
+      match (toVal v).bind toXF with
+      | some x => (ofVal (nextDownX x).val).toString
       | none => "ERR args"
+    | "floats", [lo, hi] =>
+      -- the resolved bounds of `random_floats(lower, upper)`; `N` = not given
+      match optXF lo, optXF hi with
+      | some l, some u =>
+        match floatsFrom l u with
+        | .floats a b _ => (Sexp.list [ofVal a.val, ofVal b.val]).toString
+        | _ => "ERR floats"
+      | _, _ => "ERR args"
     | "class", [p] =>
       match toPred p with
       | some p =>
